@@ -1006,7 +1006,8 @@ func (g *generatorObject) delegate(v Value) Value {
 	g.state = state
 	if ex != nil {
 		g.delegated = nil
-		g.state = genStateCompleted
+		// the exception is thrown inside the generator, which may catch it and carry on: it is running
+		g.state = genStateExecuting
 		return g.step(g.gen.nextThrow(ex))
 	}
 	return g.next(_undefined)
